@@ -149,6 +149,10 @@ func ParseStreamCallback(reader io.Reader, c Config, callback ParseCallback) err
 			node.Elements.Add(title, fQty)
 		}
 	}
+	// a read failure (or an over-long line) must not pass for the end of the file
+	if err = lineScanner.Err(); err != nil {
+		return err
+	}
 	// push last node
 	if node != nil {
 		_, err = callback(node, nil)
